@@ -35,6 +35,10 @@ pub enum Case {
 pub enum ROp {
     /// set_decimal_seperator + set_thousand_separator
     Seps(String, String),
+    /// set_decimal_seperator alone
+    Dec(String),
+    /// set_thousand_separator alone
+    Thou(String),
     /// set_number_configuration(digits, remove zero fraction, rounding)
     Num(u8, bool, bool),
     /// set_timezone
@@ -141,7 +145,7 @@ impl Prop for C04 {
             f.push(Family::new(
                 "reconfiguration-histories",
                 Mode::Full,
-                &format!("every sequence of 1..={} operations on ONE calculator over [separators set to (',' '.') | ('.' ',') | ('.' '') | (',' ''); number format (0 digits) | (4 digits, keep zero fraction, no rounding); default zone CET | EST; evaluate one of 5 texts whose reading depends on the configuration ('1.250 + 1', '1,250 * 2', '2,5 usd to try', 'x = 1.5 km / x to m', '11:30 to EST')]: every evaluation equals the same text on a fresh calculator that was only given the configuration in force (the result is determined by the configuration, not by how it was reached or what was evaluated before)", dr),
+                &format!("every sequence of 1..={} operations on ONE calculator over [separators set to (',' '.') | ('.' ',') | ('.' '') | (',' ''); decimal separator alone set to '.'; thousands separator alone set to ','; number format (0 digits) | (4 digits, keep zero fraction, no rounding); default zone CET | EST; evaluate one of 5 texts whose reading depends on the configuration ('1.250 + 1', '1,250 * 2', '2,5 usd to try', 'x = 1.5 km / x to m', '11:30 to EST')]: every evaluation equals the same text on a fresh calculator that was only given the configuration in force (the result is determined by the configuration, not by how it was reached or what was evaluated before)", dr),
                 move |ch| {
                     let ops: Vec<ROp> = vec![
                         ROp::Eval("1.250 + 1".into()),
@@ -153,6 +157,8 @@ impl Prop for C04 {
                         ROp::Seps(".".into(), ",".into()),
                         ROp::Seps(".".into(), "".into()),
                         ROp::Seps(",".into(), "".into()),
+                        ROp::Dec(".".into()),
+                        ROp::Thou(",".into()),
                         ROp::Num(0, true, true),
                         ROp::Num(4, false, false),
                         ROp::Tz("CET".into()),
@@ -433,6 +439,14 @@ fn exec_reconf(ctx: &mut Ctx, ops: &[ROp]) -> Verdict {
                 calc.set_decimal_seperator(d.clone());
                 calc.set_thousand_separator(t.clone());
                 model.dec = Some(d.clone());
+                model.thou = Some(t.clone());
+            }
+            ROp::Dec(d) => {
+                calc.set_decimal_seperator(d.clone());
+                model.dec = Some(d.clone());
+            }
+            ROp::Thou(t) => {
+                calc.set_thousand_separator(t.clone());
                 model.thou = Some(t.clone());
             }
             ROp::Num(d, rm, rd) => {
